@@ -20,6 +20,10 @@ package main
 //	if !confutil.IsChosenCase(ammo.Tag(), p.Config.ChosenCases) { continue }           -> if ¬ chosen then Act.tau … else …
 //
 // Every statement of the translated bodies must match one of the listed shapes; anything else makes gen fail.
+//
+// Round 4: the loop bodies of runFullScan / runPreloaded and Run are no longer read here (symbolic execution,
+// area_chosencases_sym.go + area_chosencases_symloops.go); what is still used of this file: scanAmmos, chanCapOf,
+// deferCloses and the guard translator they share.
 
 import (
 	"bytes"
@@ -417,81 +421,6 @@ func (x *chosencasesPl) chanCapOf(node ast.Node, want string) string {
 
 // requireMin0: int config fields read as Nat must be validated non-negative
 
-func (x *chosencasesPl) replayLoop(fd *ast.FuncDecl, name, passes, limit, ammos, sink string) string {
-	x.vars = map[string]string{
-		passes: "passes", limit: "limit", "ammoNum": "ammoNum", "passNum": "passNum", "length": "length", "i": "i",
-		"uint(len(" + ammos + "))": "length",
-	}
-	loop := chosencasesForBody(fd)
-	if loop == nil || loop.Cond != nil || loop.Init != nil || loop.Post != nil {
-		return x.fail(fd, "no plain `for { … }` loop")
-	}
-	// before the loop: length := uint(len(ammos)); if length == 0 { return ErrNoAmmo }; ammoNum := uint(0); passNum := uint(0)
-	var pre []ast.Stmt
-	for _, s := range fd.Body.List {
-		if s == ast.Stmt(loop) {
-			break
-		}
-		pre = append(pre, s)
-	}
-	skipPre := func(s string) bool {
-		return strings.HasPrefix(s, "const op") || s == "p.Deps = deps" || strings.HasPrefix(s, "defer func()") ||
-			s == "length := uint(len("+ammos+"))"
-	}
-	preG := &chosencasesGuardCtx{ret: x.retSentinel("some "), skip: skipPre, fall: func(ind string) string {
-		return ind + "(none : Option RunRes)"
-	}, typeOf: func(string) string { return "Nat" }}
-	// the initial values of the counters must be 0
-	var preGuards []ast.Stmt
-	for _, s := range pre {
-		src := x.src(s)
-		if src == "ammoNum := uint(0)" || src == "passNum := uint(0)" {
-			continue
-		}
-		preGuards = append(preGuards, s)
-	}
-	init0 := 0
-	for _, s := range pre {
-		if src := x.src(s); src == "ammoNum := uint(0)" || src == "passNum := uint(0)" {
-			init0++
-		}
-	}
-	if init0 != 2 {
-		x.fail(fd, "ammoNum / passNum are not initialised with uint(0)")
-	}
-	preTxt := x.guards(preGuards, "  ", preG)
-
-	var done string
-	item := ""
-	g := &chosencasesGuardCtx{ret: x.retSentinel("Act.ret ")}
-	g.special = func(s ast.Stmt, rest []ast.Stmt, ind string) (string, bool) {
-		if as, ok := s.(*ast.AssignStmt); ok && len(as.Lhs) == 1 && len(as.Rhs) == 1 && x.src(as.Lhs[0]) == "ammo" {
-			if ie, ok := as.Rhs[0].(*ast.IndexExpr); ok && x.src(ie.X) == ammos {
-				item = x.expr(ie.Index)
-				return x.guards(rest, ind, g), true
-			}
-		}
-		if sel, ok := s.(*ast.SelectStmt); ok {
-			si, ok := x.selectStmt(sel)
-			if !ok || si.sink != sink || si.sendVal != "ammo" || item == "" || len(rest) != 0 {
-				return ind + x.fail(s, "send select shape"), true
-			}
-			done = si.done
-			gs := &chosencasesGuardCtx{ret: g.ret, fall: func(ind string) string { return ind + "Act.offer " + item + " (ammoNum, passNum)" }}
-			return x.guards(si.sendBody, ind, gs), true
-		}
-		return "", false
-	}
-	g.fall = func(ind string) string { return ind + x.fail(loop, "loop body falls through without a send") }
-	body := x.guards(loop.Body.List, "  ", g)
-	pos := x.pkg.Fset.Position(fd.Pos())
-	return fmt.Sprintf("/-- regenerated from `%s:%d` %s: what happens before the loop (`none` = the loop is entered with ammoNum = passNum = 0) -/\n"+
-		"def %sPre (length : Nat) : Option RunRes :=\n%s\n\n"+
-		"/-- regenerated from the body of the `for` loop of %s (state = ammoNum, passNum) -/\n"+
-		"def %sStep (passes limit length : Nat) (c : Bool) (ammoNum passNum : Nat) : Act (Nat × Nat) :=\n%s\n\n"+
-		"/-- regenerated: result of the `case <-ctx.Done()` branch of the send select of %s -/\ndef %sDone : RunRes := %s\n\n",
-		chosencasesShortPath(pos.Filename), pos.Line, fd.Name.Name, name, preTxt, fd.Name.Name, name, body, fd.Name.Name, name, done)
-}
 
 func chosencasesShortPath(p string) string {
 	if i := strings.Index(p, "/components/"); i >= 0 {
@@ -506,119 +435,7 @@ func chosencasesShortPath(p string) string {
 	return p
 }
 
-// fullScanLoop: body of the loop of runFullScan.
-func (x *chosencasesPl) fullScanLoop(fd *ast.FuncDecl) string {
-	x.vars = map[string]string{
-		"p.Limit": "limit", "ammoNum": "ammoNum", "passes != nil": "True", "passes.PassNum()": "passNum", "err": "errV",
-	}
-	loop := chosencasesForBody(fd)
-	if loop == nil || loop.Cond != nil || loop.Init != nil || loop.Post != nil {
-		return x.fail(fd, "no plain `for { … }` loop")
-	}
-	// before the loop: ammoNum := uint(0); passes, _ := p.Decoder.(passCounter)
-	n0 := false
-	for _, s := range fd.Body.List {
-		if s == ast.Stmt(loop) {
-			break
-		}
-		switch x.src(s) {
-		case "ammoNum := uint(0)":
-			n0 = true
-		case "passes, _ := p.Decoder.(passCounter)":
-		default:
-			x.fail(s, "statement before the loop: %s", x.src(s))
-		}
-	}
-	if !n0 {
-		x.fail(fd, "ammoNum is not initialised with uint(0)")
-	}
-	done := ""
-	g := &chosencasesGuardCtx{ret: x.retSentinel("Act.ret "), cont: "Act.tau ammoNum"}
-	g.special = func(s ast.Stmt, rest []ast.Stmt, ind string) (string, bool) {
-		// if err := ctx.Err(); err != nil { … return err }
-		if is, ok := s.(*ast.IfStmt); ok && is.Init != nil && x.src(is.Init) == "err := ctx.Err()" {
-			chk := &ast.IfStmt{Cond: is.Cond, Body: is.Body}
-			if x.isCtxErrCheck(chk) {
-				return ind + "if c then Act.ret RunRes.canceled else\n" + x.guards(rest, ind, g), true
-			}
-		}
-		// ammo, err := p.Decoder.Scan(ctx); if err != nil { mapping }
-		if as, ok := s.(*ast.AssignStmt); ok && x.src(as) == "ammo, err := p.Decoder.Scan(ctx)" {
-			if len(rest) == 0 {
-				return ind + x.fail(s, "nothing after Scan"), true
-			}
-			is, ok := rest[0].(*ast.IfStmt)
-			if !ok || x.src(is.Cond) != "err != nil" || is.Else != nil || is.Init != nil {
-				return ind + x.fail(rest[0], "error check after Scan"), true
-			}
-			ge := &chosencasesGuardCtx{ret: g.ret, fall: func(ind string) string { return ind + x.fail(is, "error branch falls through") }}
-			errTxt := x.guards(is.Body.List, ind+"    ", ge)
-			okTxt := x.guards(rest[1:], ind+"    ", g)
-			return ind + "match sr with\n" +
-				ind + "| ScanRes.ammo i =>\n" + okTxt + "\n" +
-				ind + "| ScanRes.errLimit =>\n" + ind + "    let errV : RunRes := RunRes.errLimit\n" + errTxt + "\n" +
-				ind + "| ScanRes.errPass =>\n" + ind + "    let errV : RunRes := RunRes.errPasses\n" + errTxt + "\n" +
-				ind + "| ScanRes.errNoAmmo =>\n" + ind + "    let errV : RunRes := RunRes.errNoAmmo\n" + errTxt + "\n" +
-				ind + "| ScanRes.unexpected =>\n" + ind + "    let errV : RunRes := RunRes.errOther\n" + errTxt, true
-		}
-		// if !confutil.IsChosenCase(ammo.Tag(), p.Config.ChosenCases) { continue }
-		if is, ok := s.(*ast.IfStmt); ok && x.src(is.Cond) == "!confutil.IsChosenCase(ammo.Tag(), p.Config.ChosenCases)" {
-			if len(is.Body.List) == 1 && x.src(is.Body.List[0]) == "continue" && is.Else == nil {
-				return ind + "if ¬ chosen then Act.tau ammoNum else\n" + x.guards(rest, ind, g), true
-			}
-		}
-		if sel, ok := s.(*ast.SelectStmt); ok {
-			si, ok := x.selectStmt(sel)
-			if !ok || si.sink != "p.Sink" || si.sendVal != "ammo" || len(rest) != 0 {
-				return ind + x.fail(s, "send select shape"), true
-			}
-			done = si.done
-			gs := &chosencasesGuardCtx{ret: g.ret, fall: func(ind string) string { return ind + "Act.offer i ammoNum" }}
-			return x.guards(si.sendBody, ind, gs), true
-		}
-		return "", false
-	}
-	g.fall = func(ind string) string { return ind + x.fail(loop, "loop body falls through without a send") }
-	body := x.guards(loop.Body.List, "  ", g)
-	return fmt.Sprintf("/-- regenerated from the body of the `for` loop of runFullScan (state = ammoNum; `passNum` = Decoder.PassNum(),\n`sr` = what Decoder.Scan returns, `chosen` = IsChosenCase of the scanned ammo) -/\n"+
-		"def runFullScanStep (limit : Nat) (c : Bool) (ammoNum passNum : Nat) (sr : ScanRes) (chosen : Bool) : Act Nat :=\n%s\n\n"+
-		"/-- regenerated: result of the `case <-ctx.Done()` branch of the send select of runFullScan -/\ndef runFullScanDone : RunRes := %s\n\n", body, done)
-}
 
-// httpRun: Provider.Run of components/providers/http/provider
-func (x *chosencasesPl) httpRun(fd *ast.FuncDecl) string {
-	ch, _ := x.deferCloses(fd)
-	x.vars = map[string]string{"err": "errV"}
-	// find `if p.Config.Preload { err = p.loadAmmo(ctx); if err == nil { err = p.runPreloaded(ctx); MAPPING } } else { err = p.runFullScan(ctx) }`
-	var mapping []ast.Stmt
-	okShape := false
-	for _, s := range fd.Body.List {
-		is, ok := s.(*ast.IfStmt)
-		if !ok || x.src(is.Cond) != "p.Config.Preload" || is.Else == nil {
-			continue
-		}
-		eb, ok := is.Else.(*ast.BlockStmt)
-		if !ok || len(eb.List) != 1 || x.src(eb.List[0]) != "err = p.runFullScan(ctx)" {
-			continue
-		}
-		if len(is.Body.List) != 2 || x.src(is.Body.List[0]) != "err = p.loadAmmo(ctx)" {
-			continue
-		}
-		in, ok := is.Body.List[1].(*ast.IfStmt)
-		if !ok || x.src(in.Cond) != "err == nil" || in.Else != nil || len(in.Body.List) < 1 || x.src(in.Body.List[0]) != "err = p.runPreloaded(ctx)" {
-			continue
-		}
-		mapping = in.Body.List[1:]
-		okShape = true
-	}
-	if !okShape {
-		return x.fail(fd, "Run does not have the shape `if Preload { loadAmmo; if err == nil { runPreloaded; mapping } } else { runFullScan }`")
-	}
-	g := &chosencasesGuardCtx{ret: x.retSentinel(""), fall: func(ind string) string { return ind + "errV" }}
-	return fmt.Sprintf("/-- regenerated from `components/providers/http/provider/provider.go` Run: the deferred function closes `p.Sink` -/\ndef httpRunCloses : Bool := %v\n\n"+
-		"/-- regenerated from Run: what is done with the result of runPreloaded (the result of runFullScan is returned as it is) -/\ndef httpRunMap (errV : RunRes) : RunRes :=\n%s\n\n",
-		ch == "p.Sink", x.guards(mapping, "  ", g))
-}
 
 // scanAmmos of the jsonline decoder (JSON array)
 func (x *chosencasesPl) scanAmmos(fd *ast.FuncDecl) string {
